@@ -112,9 +112,11 @@ func refBody(data []interface{}) (body []byte, pure int, err error) {
 // ---------------------------------------------------------------- model
 
 const (
-	eExact  = iota // one task with a fully known body
-	eChunks        // the chunk tasks of one pushed file (their number and cut points are not fixed by the statement)
-	eUser          // the command that uses the file(s): body known up to the file ids
+	eExact   = iota // one task with a fully known body
+	eChunks         // the chunk tasks of one pushed file (their number and cut points are not fixed by the statement)
+	eUser           // the command that uses the file(s): body known up to the file ids
+	eConnect        // the SOCKS connect task of a proxy client: carries the socket id every later relay task must repeat
+	eStream         // bytes a SOCKS client wrote: relay write tasks of that socket, in stream order
 )
 
 // entry is one element of the reference FIFO of an agent.
@@ -142,6 +144,7 @@ type entry struct {
 func (e *entry) wireLen() int { return len(e.pre) + e.n }
 
 type agentModel struct {
+	sock  uint32 // socket id announced by the connect task (eConnect), 0 before
 	q     []*entry
 	ids   []uint32 // file ids bound by the chunk groups preceding the next eUser
 	deliv int      // tasks matched so far
@@ -161,8 +164,10 @@ func (m *agentModel) nextHiUpper() (int, bool) {
 	}
 	e := m.q[0]
 	switch e.kind {
-	case eExact, eUser:
+	case eExact, eUser, eConnect:
 		return e.wireLen() + 12, true
+	case eStream:
+		return 4 + 4 + 4 + len(e.content) - e.acc + 12, true
 	default:
 		rest := len(e.content) - e.acc
 		hi := 4 + 8 + 4 + rest + 12
@@ -192,6 +197,7 @@ func sameBody(got []byte, e *entry) bool {
 // consume matches one delivered task against the head of the model queue and returns
 // the smallest reading of its data size.  sub names the sub-check for signatures.
 func (m *agentModel) consume(sub string, t demonref.Task) (pure int, v *core.Violation) {
+	sub1 := sub
 	for {
 		if len(m.q) == 0 {
 			return 0, core.V(sub+"|extra-task", "task cmd=%d req=%#x (%d body bytes) was delivered although the model queue is empty (delivered twice, or never queued); %d tasks matched before", t.Cmd, t.ReqID, len(t.Body), m.deliv)
@@ -257,6 +263,56 @@ func (m *agentModel) consume(sub string, t demonref.Task) (pure int, v *core.Vio
 			m.ids[e.slot] = e.fileID
 			m.q = m.q[1:]
 			continue
+		case eConnect:
+			// Socket.c / CommandSocket SOCKET_COMMAND_CONNECT reads: GetInt32 socket id, GetByte
+			// address type, GetBytes address, GetInt16 port
+			d := &demonref.Dec{B: t.Body}
+			sub, id, atyp, addr, port := d.Int32(), d.Int32(), d.Byte(), d.Bytes(), d.Int16()
+			if t.Cmd != agent.COMMAND_SOCKET || t.ReqID != 0 || d.Err || d.Len() != 0 || sub != agent.SOCKET_COMMAND_CONNECT {
+				return 0, core.V(sub1+"|wrong-task|cmd", "delivered task #%d (cmd %d, req %#x, %d body bytes) is not the SOCKS connect task queued by op %d", m.deliv, t.Cmd, t.ReqID, len(t.Body), e.op)
+			}
+			if atyp != e.pre[0] || !bytes.Equal(addr, e.pre[3:]) || port != uint16(e.pre[1])<<8|uint16(e.pre[2]) {
+				return 0, core.V(sub1+"|relay|connect-target", "the connect task names target type %d %x:%d, the proxy client asked for type %d %x:%d", atyp, addr, port, e.pre[0], e.pre[3:], uint16(e.pre[1])<<8|uint16(e.pre[2]))
+			}
+			m.sock = id
+			m.q = m.q[1:]
+			m.deliv++
+			return len(t.Body) - 4, nil
+		case eStream:
+			d := &demonref.Dec{B: t.Body}
+			sub, id, data := d.Int32(), d.Int32(), d.Bytes()
+			if t.Cmd != agent.COMMAND_SOCKET || t.ReqID != 0 || d.Err || d.Len() != 0 || sub != agent.SOCKET_COMMAND_WRITE {
+				return 0, core.V(sub1+"|wrong-task|cmd", "delivered task #%d (cmd %d, req %#x, %d body bytes) arrives where the relay write task of op %d (%d bytes) is queued", m.deliv, t.Cmd, t.ReqID, len(t.Body), e.op, len(e.content))
+			}
+			if id != m.sock {
+				return 0, core.V(sub1+"|relay|socket-id", "relay write task #%d carries socket id %#x, the connect task of this client announced %#x", m.deliv, id, m.sock)
+			}
+			if len(data) == 0 {
+				return 0, core.V(sub1+"|relay|empty-write", "relay write task #%d carries no data", m.deliv)
+			}
+			// the task's bytes are the next bytes of what the client wrote (a task may end inside
+			// a written piece or span into the next one if the relay read them together)
+			rest := data
+			for len(rest) > 0 {
+				if len(m.q) == 0 || m.q[0].kind != eStream {
+					return 0, core.V(sub1+"|relay|content", "relay write task #%d carries %d bytes more than the client wrote at this point of the queue", m.deliv, len(rest))
+				}
+				h := m.q[0]
+				n := len(h.content) - h.acc
+				if n > len(rest) {
+					n = len(rest)
+				}
+				if !bytes.Equal(rest[:n], h.content[h.acc:h.acc+n]) {
+					return 0, core.V(sub1+"|relay|content", "relay write task #%d (%d bytes) does not carry the bytes the proxy client wrote for it (op %d, %d bytes, offset %d): the data changed between queueing and hand-out", m.deliv, len(data), h.op, len(h.content), h.acc)
+				}
+				h.acc += n
+				rest = rest[n:]
+				if h.acc == len(h.content) {
+					m.q = m.q[1:]
+				}
+			}
+			m.deliv++
+			return len(t.Body) - 4, nil
 		case eUser:
 			if t.Cmd != e.cmd {
 				return 0, core.V(sub+"|wrong-task|cmd", "delivered task #%d has command %d, the command using the pushed file (op %d) has command %d", m.deliv, t.Cmd, e.op, e.cmd)
